@@ -182,6 +182,31 @@ def _escapes_rule(chk, prog):
             chk.violation(rule, "pp.c", "janet_escape_string_impl", "byte-%d" % byte, pf.loc,
                           "the printer writes byte %d as \\\\%s but the reader decodes \\\\%s as %s: printed data does not parse back" % (
                               byte, letter, letter, reader.get(letter, "an error")))
+    # letters after which the reader keeps consuming (a continuation consumer is installed): a two-character escape the
+    # printer emits must not be one of them, or the raw characters the printer writes next are swallowed by the escape
+    e1 = prog.need_func("escape1", "parse.c")
+    chk.analysed(e1)
+    cont = set()
+    for x in e1.nodes:
+        if x.k == "if":
+            sets_consumer = any(y.k == "asg" and y.kids[0].k == "mem" and y.kids[0].field == "consumer" and
+                                not (strip_casts(y.kids[1]).k == "ref" and strip_casts(y.kids[1]).name == "stringchar") for y in x.kids[1].walk())
+            if sets_consumer:
+                for y in x.kids[0].walk():
+                    if y.k == "bin" and y.op == "==" and strip_casts(y.kids[1]).v is not None and 0 < strip_casts(y.kids[1]).v < 128:
+                        cont.add(chr(strip_casts(y.kids[1]).v))
+    if "x" not in cont:
+        raise AnalysisBroken("escape1: the continuation for \\x was not recognised (%s)" % sorted(cont))
+    chk.extra["reader_multi_char_escapes"] = sorted(cont)
+    for byte, letter in sorted(printer.items()):
+        chk.instance(rule)
+        if letter in cont:
+            chk.violation(rule, "parse.c", "escape1", "greedy-\\%s" % letter, e1.loc,
+                          "the printer writes byte %d as the two characters \\%s and prints what follows raw, but the reader keeps "
+                          "consuming characters after \\%s: a NUL followed by a digit prints as \\%s1 and reads back as one "
+                          "different byte" % (byte, letter, letter, letter))
+        else:
+            chk.ok(rule, "\\%s is complete after one character for the reader" % letter)
     chk.instance(rule)
     if reader.get("x") == 1:
         chk.ok(rule, "reader accepts the \\\\xHH form the printer falls back to")
@@ -262,10 +287,17 @@ def _argsync_rule(chk, prog):
         chk.analysed(fn)
         synced = any(x.k == "asg" and x.kids[0].k == "mem" and x.kids[0].field == "argn" for x in fn.nodes) or \
             any(c.callee in ("pushstate", "_pushstate") for c in fn.calls())
+        # `pending` counts the finished root values waiting at the bottom of the same stack: it can never exceed argcount
+        pend = any(x.k == "asg" and x.kids[0].k == "mem" and x.kids[0].field == "pending" and x.kids[0].rec == "JanetParser" for x in fn.nodes)
         for x in resets:
             n += 1
             chk.instance(rule)
-            if synced:
+            if synced and not pend and strip_casts(x.kids[1]).v == 0:
+                chk.violation(rule, "parse.c", fn.name, "pending-not-reset", x.loc,
+                              "`%s` empties the argument stack but %s leaves `pending` (the number of finished values queued at its "
+                              "bottom) as it was: parser/has-more stays true, parser/produce returns a stale slot and decrements "
+                              "argcount below zero (size_t wrap; the next produce or collection walks off the heap)" % (x.text()[:40], fn.name))
+            elif synced:
                 chk.ok(rule, "%s: `%s` together with the states' argn" % (fn.name, x.text()[:40]))
             else:
                 chk.violation(rule, "parse.c", fn.name, "argcount-reset", x.loc,
